@@ -108,7 +108,8 @@ def extra(rep, cov, tier, rng):
                         for i in list(range(16)) + list(range(ln * 8 - 128, ln * 8)):
                             e = bytearray(lm); e[i // 8] ^= 1 << (i % 8)
                             calls.append(("verify", cp, [ls, bytes(e), pk])); why.append("bit %d of a %d-byte message flipped" % (i, ln))
-                calls.append(("verify", cp, [sig, m[:-1], pk])); why.append("message truncated")
+                if len(m) > 0:      # the empty message has no proper prefix (m[:-1] would be m itself)
+                    calls.append(("verify", cp, [sig, m[:-1], pk])); why.append("message truncated")
                 calls.append(("verify", cp, [sig, m + b"\x00", pk])); why.append("message extended")
                 calls.append(("verify", cp, [sig, m, pk2])); why.append("other public key (other seed)")
                 # sibling scheme of equal key/signature sizes
